@@ -8,6 +8,7 @@ inside / outside FROM)  x  8 codecs (encode path) / 7 codecs (decode path).
 Oracle: mc.ref_constraints.verdict.
 """
 
+import re
 import base64
 import pickle
 
@@ -225,6 +226,11 @@ def _sizeof(v):
     return 1
 
 
+def _nopath(detail):
+    """'ConstraintsError: T.x: Expected ...' -> 'ConstraintsError: Expected ...'"""
+    return re.sub(r'^(\w+): \S+: ', r'\1: ', detail)
+
+
 def culprit(term, v, env, pos, ls):
     """Position (and its layers) of the first violated constraint of v."""
     viol = [st for st, w in violations(term, v, env) if not isinstance(w, str)]
@@ -415,7 +421,7 @@ def work(unit):
                     else:
                         cpos, cls = pos, ls
                     where = 'top' if not cpos.steps else cpos.via[-1][-1].split(':')[0]
-                    cause = layer_summary(cls) if 'outside' in kind else detail
+                    cause = layer_summary(cls) if 'outside' in kind else _nopath(detail)
                     sig = '|'.join([kind, cause, where])
                     res.failures.append(new_failure(
                         ID, kind, sig, codec=codec, numeric=False, detail=detail,
@@ -462,7 +468,7 @@ def run_case(failure, unit, name, term, v):
                 judged = dec if kind.startswith('decode') else v
                 cause = layer_summary(culprit(term, judged, unit.env, None, [])[1])
             else:
-                cause = detail
+                cause = _nopath(detail)
             if failure.get('cause') is not None and cause != failure['cause']:
                 continue
             return (kind, detail, enc, dec)
